@@ -34,7 +34,7 @@ manifest = {
     "setup_cmd": "./check build",
     "hooks": {
         "guard": "verif-hooks",
-        "enable": "cargo feature: the harness crate depends on discv5 = { path = \"/repo\", features = [\"verif-hooks\"] }",
+        "enable": "cargo feature: the harness crate depends on discv5 = { path = \"/repo\", features = [\"verif-hooks\", \"libp2p\"] } (libp2p is the crate's own optional feature, not a hook)",
         "baseline_off_cmd": "cd /repo && cargo test --workspace --no-fail-fast --offline",
         "source_commits": hook_commits,
         "add_only": True,
